@@ -195,6 +195,16 @@ def op_cases():
         a = mk(rng, 4, 3)
         return [a], a[np.array([0, 2, 2])]
 
+    @case("gru")
+    def _(rng):
+        from mygrad.nnet.layers import gru
+
+        T_, N_, C_, D_ = 3, 2, 2, 3
+        X = mk(rng, T_, N_, C_)
+        ps = [mk(rng, C_, D_), mk(rng, D_, D_), mk(rng, D_), mk(rng, C_, D_), mk(rng, D_, D_), mk(rng, D_),
+              mk(rng, C_, D_), mk(rng, D_, D_), mk(rng, D_)]
+        return [X] + ps, gru(X, *ps)
+
     return cases
 
 
@@ -224,7 +234,11 @@ def vars_only_case(args):
         return {"name": name, "mut": mname, "fails": [f"in-place update of an input raised {type(e).__name__}"], "args": args}
     if not np.array_equal(out.data, before, equal_nan=True):
         fails.append("value computed before the mutation changed")
-    (out * w).sum().backward()
+    try:
+        (out * w).sum().backward()
+    except Exception as e:  # noqa: BLE001
+        fails.append(f"backward() after input {i} was mutated in place raised {type(e).__name__}: {str(e)[:80]}")
+        return {"name": name, "mut": mname, "fails": fails, "args": args, "i": i}
     for j, t in enumerate(ins):
         if j == i:
             continue
@@ -332,7 +346,7 @@ def run(ctx: Ctx) -> Outcome:
     out.rule = ("random programs interleaving reads, views and in-place writes (item assignment with basic/int-array incl. "
                 "repeated/boolean keys and broadcast values, augmented assignment, ufunc out= with optional where=) on bases, "
                 "views and views of views, one final backward; non-trivial = an in-place update whose target is read before and "
-                "after it; distinct by program hash.  Plus forward/mutate-input/backward cases for 20 op classes, and 12 cases in which "
+                "after it; distinct by program hash.  Plus forward/mutate-input/backward cases for 21 op / layer classes (incl. the GRU, which back-propagates by itself), and 12 cases in which "
                 "the index object of x[index] / x[index] = v (integer/boolean tensor, ndarray, list) is changed after the forward pass.")
     seen = engcheck.report(out, results, "C05", oracle)
     # H_vars_only
